@@ -71,11 +71,11 @@ DigitText == [t \in {"0", "3", "5", "6"} |-> CASE t = "0" -> 0 [] t = "3" -> 3 [
 \* transfer codings named by a Transfer-Encoding field value on the wire
 WireCodings(text) == CASE text = "chunked" -> <<"chunked">> [] text = "gzip" -> <<"gzip">>
                        [] text = "chunked, identity" -> <<"chunked", "identity">>
-                       [] text = "gzip, chunked" -> <<"gzip", "chunked">> [] OTHER -> <<text>>
+                       [] text = "gzip, chunked" -> <<"gzip", "chunked">> [] text = "gzip chunked" -> <<"?">> [] OTHER -> <<text>>
 RECURSIVE AllCodings(_, _)
 AllCodings(tes, i) == IF i > Len(tes) THEN <<>> ELSE WireCodings(tes[i][2]) \o AllCodings(tes, i + 1)
 \* RFC 9112 6.1/6.3: the field lines combine into one list; chunked exactly once, and last
-WireTeOk(tes) == LET l == AllCodings(tes, 1) IN l[Len(l)] = "chunked" /\ Count(l, "chunked") = 1
+WireTeOk(tes) == LET l == AllCodings(tes, 1) IN l[Len(l)] = "chunked" /\ Count(l, "chunked") = 1 /\ ~Has(l, "?")
 
 BadRead == [ok |-> FALSE, reqs |-> <<>>]
 
@@ -150,7 +150,7 @@ RL1 == {"ok", "badmethod", "abs:b", "star", "optstar", "http10", "http09", "twos
 HostShapes == {"a", "b", "none", "ab", "ba", "aa"}
 H1Syntax == {"obsfold", "barelf", "nul", "cr", "spcolon"}
 H1Cl == {"cl:5", "cl:3", "cl:plus", "cl:hex", "cl:empty", "cl:listeq", "cl:listne"}
-H1Te == {"te:chunked", "te:gzip", "te:chunked,identity", "te:gzip,chunked", "te:xchunked"}
+H1Te == {"te:chunked", "te:gzip", "te:chunked,identity", "te:gzip,chunked", "te:xchunked", "te:junk"}
 H1Tok == H1Syntax \cup H1Cl \cup H1Te \cup {"badname", "conn:close", "conn:keepalive"}
 ChunkShapes == {"valid", "trailers", "badsize", "ext", "lf"}
 
@@ -170,18 +170,20 @@ ClText(t) == CASE t = "cl:5" -> "5" [] t = "cl:3" -> "3" [] t = "cl:plus" -> "+5
                [] t = "cl:empty" -> "" [] t = "cl:listeq" -> "5, 5" [] t = "cl:listne" -> "5, 3" [] t = "cl:sp" -> " 5"
                [] t = "cl:list" -> "5, 5"
 TeText(t) == CASE t = "te:chunked" -> "chunked" [] t = "te:gzip" -> "gzip" [] t = "te:chunked,identity" -> "chunked, identity"
-               [] t = "te:gzip,chunked" -> "gzip, chunked" [] t = "te:xchunked" -> "xchunked"
+               [] t = "te:gzip,chunked" -> "gzip, chunked" [] t = "te:xchunked" -> "xchunked" [] t = "te:junk" -> "gzip chunked"
 TeCodings(t) == CASE t = "te:chunked" -> <<"chunked">> [] t = "te:gzip" -> <<"gzip">>
                   [] t = "te:chunked,identity" -> <<"chunked", "identity">>
                   [] t = "te:gzip,chunked" -> <<"gzip", "chunked">> [] t = "te:xchunked" -> <<"xchunked">>
+                  [] t = "te:junk" -> <<"?">>                 \* not a token (`gzip chunked`, `"chunked`): "?" stands for it
 \* kawa's test: the field value ENDS WITH "chunked" (case-insensitive)
-TeEndsChunked(t) == t \in {"te:chunked", "te:gzip,chunked", "te:xchunked"}
-\* RFC 9112 6.1/6.3: chunked exactly once and final
-TeListOk(tes) == tes = <<>> \/ (tes[Len(tes)] = "chunked" /\ Count(tes, "chunked") = 1)
+TeEndsChunked(t) == t \in {"te:chunked", "te:gzip,chunked", "te:xchunked", "te:junk"}
+\* RFC 9112 6.1/6.3: a list of tokens, chunked exactly once and final
+TeListOk(tes) == tes = <<>> \/ (tes[Len(tes)] = "chunked" /\ Count(tes, "chunked") = 1 /\ ~Has(tes, "?"))
 
-\* Content-Length values the code refuses: kawa uses usize::from_str, which accepts a leading '+';
-\* the fix (editor.rs) requires 1*DIGIT.
-H1ClRefused == {"cl:hex", "cl:empty", "cl:listeq", "cl:listne"} \cup (IF Dev("ClPlus") THEN {} ELSE {"cl:plus"})
+\* Content-Length values kawa refuses. It uses usize::from_str, which accepts a leading '+': "+5" is 5.
+\* The fix (editor.rs::h1_request_head_error) requires 1*DIGIT of the Content-Length field that is FORWARDED
+\* (a "+5" elided as an equal duplicate, or overridden by Transfer-Encoding, never reaches the wire).
+H1ClRefused == {"cl:hex", "cl:empty", "cl:listeq", "cl:listne"}
 
 H1Init == [err |-> FALSE, bs |-> "empty", len |-> 0, out |-> <<>>, tes |-> <<>>, close |-> FALSE]
 
@@ -212,11 +214,12 @@ H1Run(c) ==
       hosts == HostSeq(c.host)
       auth  == IF c.rl = "abs:b" THEN "b" ELSE IF hosts = <<>> THEN "" ELSE hosts[1]   \* request line wins, then FIRST Host
       teBad == ~Dev("TeLenient") /\ (~TeListOk(st.tes) \/ (rl.ver = "1.0" /\ st.tes # <<>>))
+      clBad == ~Dev("ClPlus") /\ Has(st.out, <<"cl", "+5">>)
       head  == WireReq(rl.method, rl.target, rl.ver, auth, st.out)
       tail  == IF st.close THEN <<>> ELSE WireSentinelH1
       und(v) == IF st.close THEN <<v>> ELSE <<v, SentinelH1>>
       R(f, n) == Req(rl.method, rl.target, auth, f, n)
-  IN IF rl.bad \/ st.err \/ teBad \/ auth = "" THEN Result("r400", <<>>, <<>>, FALSE, FALSE)
+  IN IF rl.bad \/ st.err \/ teBad \/ clBad \/ auth = "" THEN Result("r400", <<>>, <<>>, FALSE, FALSE)
      ELSE IF c.rl = "optstar" THEN Result("r404", <<>>, <<>>, FALSE, FALSE)      \* no frontend for path "*"
      ELSE IF st.bs = "len" THEN
           Result("fwd", und(R("cl", st.len)), head \o (IF st.len > 0 THEN <<<<"raw", st.len>>>> ELSE <<>>) \o tail, FALSE, FALSE)
@@ -327,8 +330,8 @@ H2Run(c) ==
           ELSE Result("fwd", <<R("chunked", total), SentinelH2>>, headTe \o chunks \o <<<<"last">>, <<"eot">>>> \o WireSentinelH2, FALSE, FALSE)
      ELSE \* DATA without END_STREAM, then a trailer HEADERS frame
           \* (a Content-Length body that is already complete may have been delivered before the trailers are judged)
-          IF c.tr = "noes" THEN Result("goaway", <<>>, <<>>, TRUE, declared /\ total = st.len)   \* second HEADERS without END_STREAM
-          ELSE IF declared /\ total > st.len THEN rst(TRUE, frames[1] = st.len)
+          IF declared /\ total > st.len THEN rst(TRUE, frames[1] = st.len)            \* the excess DATA is seen first
+          ELSE IF c.tr = "noes" THEN Result("goaway", <<>>, <<>>, TRUE, declared /\ total = st.len)   \* second HEADERS without END_STREAM
           ELSE IF ~trOk THEN rst(TRUE, declared /\ total = st.len)                   \* pseudo / connection-specific / bad byte in trailers
           ELSE IF declared THEN
                IF total # st.len THEN rst(TRUE, FALSE)
@@ -352,12 +355,15 @@ H1Adm(c) ==
       tes   == Filter(c.hdrs, H1Te)
       codings == LET RECURSIVE Cat(_) Cat(i) == IF i > Len(tes) THEN <<>> ELSE TeCodings(tes[i]) \o Cat(i + 1) IN Cat(1)
       syntaxBad == c.rl \in {"badmethod", "http09", "twosp", "star"} \/ \E i \in 1..Len(c.hdrs) : c.hdrs[i] \in H1Syntax \cup {"badname"}
-      clInvalid == \E i \in 1..Len(cls) : cls[i] \in {"cl:plus", "cl:hex", "cl:empty", "cl:listne"}
+      \* "+5": reject, or forward NORMALISED (the wire must then say 5, or chunked): the strict reader judges the wire
+      clInvalid == \E i \in 1..Len(cls) : cls[i] \in {"cl:hex", "cl:empty", "cl:listne"}
       clDiffer  == \E i, j \in 1..Len(cls) : ClVal(cls[i]) # ClVal(cls[j])
       teInvalid == ~TeListOk(codings) \/ (rl.ver = "1.0" /\ tes # <<>>)
       noHost    == hosts = <<>> /\ c.rl # "abs:b"
-      must == syntaxBad \/ clInvalid \/ clDiffer \/ teInvalid \/ noHost
-      may  == Len(hosts) > 1 \/ Len(cls) > 1 \/ Has(cls, "cl:listeq") \/ (tes # <<>> /\ cls # <<>>)
+      \* a (valid) Transfer-Encoding overrides Content-Length altogether (RFC 9112 6.3 (3)): with it, whatever the
+      \* Content-Length fields say, rejecting and forwarding chunked WITHOUT any Content-Length are both admissible
+      must == syntaxBad \/ teInvalid \/ noHost \/ (tes = <<>> /\ (clInvalid \/ clDiffer))
+      may  == Len(hosts) > 1 \/ Len(cls) > 1 \/ Has(cls, "cl:listeq") \/ Has(cls, "cl:plus") \/ (tes # <<>> /\ cls # <<>>)
               \/ c.rl \in {"optstar", "abs:b"} \/ c.chunk = "ext"
       chunked == tes # <<>>
       bodyBad == chunked /\ c.chunk \in {"badsize", "lf"}
